@@ -385,6 +385,9 @@ func (in *Interp) parseDateSym(fr *frame, layout string, s *SymStr) value {
 			}
 			return IntConst(e - '0'), true
 		case *Sym:
+			if d, ok := tc.DigitOf(e.T); ok {
+				return d, true
+			}
 			isd := tc.And(tc.App(BoolSort, "bvule", BVConst('0', 8), e.T), tc.App(BoolSort, "bvule", e.T, BVConst('9', 8)))
 			if !in.branch(isd) {
 				return nil, false
